@@ -115,7 +115,7 @@ pub proof fn lemma_desc_scalar<'a, T: Queryable>(n: Node<'a, T>)
 {
     let fuel = (n.inner.height_spec() + 1) as nat;
     assert(children(n) =~= Seq::<Node<'a, T>>::empty());
-    assert(children(n).map_values(|c: Node<'a, T>| desc_fuel(c, (fuel - 1) as nat)) =~= Seq::<Seq<Node<'a, T>>>::empty());
+    assert(children(n).map_values(desc_step::<T>((fuel - 1) as nat)) =~= Seq::<Seq<Node<'a, T>>>::empty());
     assert(concat(Seq::<Seq<Node<'a, T>>>::empty()) =~= Seq::<Node<'a, T>>::empty());
     assert(descendants(n) =~= seq![n]);
     assert(seq![n].drop_last() =~= Seq::<Node<'a, T>>::empty());
@@ -165,4 +165,52 @@ pub proof fn lemma_descendant_containers<'a, T: Queryable>(s: Segment, x: Seq<No
     lemma_containers_all(mapped(x, d));
     lemma_containers_fix(containers(mapped(x, d)));   // containers(containers(..)) == containers(..)
     lemma_seg_ignores_scalars(s, mapped(x, dc), mapped(x, d), root);
+}
+
+// ---- unfolding descendants-or-self one level (used by process_descendant) ----
+pub proof fn lemma_child_smaller<'a, T: Queryable>(n: Node<'a, T>, i: int)
+    requires 0 <= i < children(n).len(),
+    ensures children(n)[i].inner.height_spec() < n.inner.height_spec(),
+{
+    n.inner.children_are_smaller();
+}
+// the fuel only has to exceed the height: more fuel changes nothing
+pub proof fn lemma_desc_fuel<'a, T: Queryable>(n: Node<'a, T>, f1: nat, f2: nat)
+    requires f1 > n.inner.height_spec(), f2 > n.inner.height_spec(),
+    ensures desc_fuel(n, f1) == desc_fuel(n, f2),
+    decreases n.inner.height_spec(),
+{
+    let m1 = children(n).map_values(desc_step::<T>((f1 - 1) as nat));
+    let m2 = children(n).map_values(desc_step::<T>((f2 - 1) as nat));
+    assert forall|i: int| 0 <= i < children(n).len() implies #[trigger] m1[i] == m2[i] by {
+        lemma_child_smaller(n, i);
+        lemma_desc_fuel(children(n)[i], (f1 - 1) as nat, (f2 - 1) as nat);
+    }
+    assert(m1 =~= m2);
+}
+pub proof fn lemma_desc_unfold<'a, T: Queryable>(n: Node<'a, T>)
+    ensures
+        is_container(n) ==> desc_c_fn()(n) == seq![n] + mapped(children(n), desc_c_fn()),
+        !is_container(n) ==> desc_c_fn()(n) == Seq::<Node<'a, T>>::empty(),
+{
+    if !is_container(n) {
+        lemma_desc_scalar(n);
+    } else {
+        let h = n.inner.height_spec();
+        let m1 = children(n).map_values(desc_step::<T>(((h + 1) - 1) as nat));
+        let m2 = children(n).map_values(desc_fn::<T>());
+        assert forall|i: int| 0 <= i < children(n).len() implies #[trigger] m1[i] == m2[i] by {
+            lemma_child_smaller(n, i);
+            lemma_desc_fuel(children(n)[i], h, (children(n)[i].inner.height_spec() + 1) as nat);
+        }
+        assert(m1 =~= m2);
+        assert(descendants(n) == seq![n] + mapped(children(n), desc_fn()));
+        lemma_containers_add(seq![n], mapped(children(n), desc_fn()));
+        assert(seq![n].drop_last() =~= Seq::<Node<'a, T>>::empty());
+        assert(containers(Seq::<Node<'a, T>>::empty()) =~= Seq::<Node<'a, T>>::empty());
+        assert(containers(seq![n]) =~= seq![n]);
+        lemma_containers_mapped(children(n), desc_fn());
+        let dc2 = |c: Node<'a, T>| containers(desc_fn::<T>()(c));
+        assert(children(n).map_values(dc2) =~= children(n).map_values(desc_c_fn::<T>()));
+    }
 }
